@@ -4,6 +4,7 @@ import SSV.Proofs.ParsersRouter
 import SSV.Proofs.ParsersSocks2
 import SSV.Proofs.ParsersSocks3
 import SSV.Proofs.ParsersHttp
+import SSV.Proofs.Repack
 /-
 C06 — No bytes from the network can crash the process.
 
@@ -144,6 +145,69 @@ example : hostHeaderToAddr (fun _ => none) (fun _ => none) [91, 58, 93] = .ok (.
 /-- the `Proxy-Authorization: Basic ` prefix test for every header value -/
 theorem no_panic_basicAuthToken (creds : Bytes) : basicAuthToken creds ≠ .panic := np_basicAuthToken creds
 
+/-! ### everything computed afterwards: RELAYING — the re-pack step of the UDP relays, the ss2022 TCP client's padding split
+
+Peer-controlled lengths and ports (payload length, target / source address kind and port → padding policy)
+flow into `PackInPlace` of the outgoing side. `draw` is the value `mrand.IntN` returns (any), `shouldPad`
+the padding policy's verdict (any), `bufLen`/`ps`/`pl` the relay buffer and the unpacked payload window. -/
+
+/-- uplink into an ss2022 client: FULL STATEMENT for every payload size (exact fit included), address, MTU-derived
+limit, policy verdict and draw; the code's own `maxPaddingLen < 0` check also covers a too-small front headroom.
+Depends on the regenerated fact `clientPackerGuardsIntN` (is `mrand.IntN(maxPaddingLen)` under `maxPaddingLen > 0`?). -/
+theorem no_panic_relay_repack_ss2022_client (maxPacketSize : Int) (nonAEAD : Nat) (hn : Gen.C06.UDPSeparateHeaderLength ≤ nonAEAD)
+    (target : Addr) (ht : target.nameFits = true) (shouldPad : Bool) (draw bufLen ps pl : Nat) (hb : ps + pl ≤ bufLen) :
+    ss2022ClientPack Gen.C06.clientPackerGuardsIntN maxPacketSize nonAEAD target shouldPad draw bufLen ps pl ≠ .panic := by
+  have hg : Gen.C06.clientPackerGuardsIntN = true := by decide
+  rw [hg]
+  exact np_ss2022ClientPack maxPacketSize nonAEAD hn target ht shouldPad draw bufLen ps pl hb
+
+/-- downlink out of an ss2022 server (depends on `serverPackerGuardsIntN`) -/
+theorem no_panic_relay_repack_ss2022_server (maxPacketLen : Int) (src4 shouldPad : Bool) (draw bufLen ps pl : Nat)
+    (hb : ps + pl ≤ bufLen) :
+    ss2022ServerPack Gen.C06.serverPackerGuardsIntN maxPacketLen src4 shouldPad draw bufLen ps pl ≠ .panic := by
+  have hg : Gen.C06.serverPackerGuardsIntN = true := by decide
+  rw [hg]
+  exact np_ss2022ServerPack maxPacketLen src4 shouldPad draw bufLen ps pl hb
+
+/-- witness of the fault class (independent of the source): without the `> 0` conjunct an exact-fit DNS datagram panics
+(MTU 1500 to an IPv6 server, no identity header, target `[::]:53`, payload 1390 = 1452-16-11-19-16) -/
+theorem relay_repack_unguarded_exact_fit_panics :
+    ss2022ClientPack false 1452 16 (.ip6 [0,0,0,0,0,0,0,0,0,0,0,0,0,0,0,0] 53) true 0 3000 1186 1390 = .panic := by decide
+/-- one byte less is padded, the same size with the guard is sent unpadded, one byte more is refused -/
+example : ss2022ClientPack true 1452 16 (.ip6 [0,0,0,0,0,0,0,0,0,0,0,0,0,0,0,0] 53) true 0 3000 1186 1390 = .ok (1140, 1452) := by decide
+example : ss2022ClientPack true 1452 16 (.ip6 [0,0,0,0,0,0,0,0,0,0,0,0,0,0,0,0] 53) true 0 3000 1186 1391 = .err .tooBig := by decide
+
+/-- none / SOCKS5 client packers (uplink) and server packers (downlink): under the relay's front headroom
+(`MaxAddrLen (+3)` resp. `IPv6AddrLen (+3)` bytes before the payload — the pair-wise headroom arithmetic is C05's) -/
+theorem no_panic_relay_repack_none_client (target : Addr) (ht : target.nameFits = true) (maxPacketSize : Int) (bufLen ps pl : Nat)
+    (hh : Gen.C06.MaxAddrLen + 0 ≤ ps) (hb : ps + pl ≤ bufLen) : prefixClientPack 0 target maxPacketSize bufLen ps pl ≠ .panic :=
+  np_prefixClientPack 0 target ht maxPacketSize bufLen ps pl hh hb
+theorem no_panic_relay_repack_socks5_client (target : Addr) (ht : target.nameFits = true) (maxPacketSize : Int) (bufLen ps pl : Nat)
+    (hh : Gen.C06.MaxAddrLen + 3 ≤ ps) (hb : ps + pl ≤ bufLen) : prefixClientPack 3 target maxPacketSize bufLen ps pl ≠ .panic :=
+  np_prefixClientPack 3 target ht maxPacketSize bufLen ps pl hh hb
+theorem no_panic_relay_repack_none_server (src4 : Bool) (maxPacketLen : Int) (bufLen ps pl : Nat)
+    (hh : Gen.C06.IPv6AddrLen + 0 ≤ ps) (hb : ps + pl ≤ bufLen) : prefixServerPack 0 src4 maxPacketLen bufLen ps pl ≠ .panic :=
+  np_prefixServerPack 0 src4 maxPacketLen bufLen ps pl hh hb
+theorem no_panic_relay_repack_socks5_server (src4 : Bool) (maxPacketLen : Int) (bufLen ps pl : Nat)
+    (hh : Gen.C06.IPv6AddrLen + 3 ≤ ps) (hb : ps + pl ≤ bufLen) : prefixServerPack 3 src4 maxPacketLen bufLen ps pl ≠ .panic :=
+  np_prefixServerPack 3 src4 maxPacketLen bufLen ps pl hh hb
+example : Gen.C06.MaxAddrLen + 3 ≤ 262 ∧ 262 + 1472 ≤ 1734 := by decide
+
+/-- direct client packer: needs only a parsed (non-zero) target -/
+theorem no_panic_relay_repack_direct_client (mtu : Int) (target : Addr) (hv : target.isValid = true) (resolve : Bytes → Option Bool)
+    (ps pl : Nat) : directClientPack mtu target resolve ps pl ≠ .panic := np_directClientPack mtu target hv resolve ps pl
+
+/-- what the parsers hand to the packers satisfies the packers' address precondition (name ≤ 255 bytes) -/
+theorem parsed_address_fits_packers (b : Bytes) (a : Addr) (n : Nat) (h : connAddrFromSlice b = .ok (a, n)) : a.nameFits = true :=
+  connAddrFromSlice_nameFits h
+theorem parsed_address_fits_packers_dc (b : Bytes) (a : Addr) (n : Nat) (h : connAddrFromSliceDC b = .ok (a, n)) : a.nameFits = true :=
+  connAddrFromSliceDC_nameFits h
+
+/-- TCP relay into an ss2022 client: `DialStream`'s padding / payload split for EVERY initial-payload length
+(0, 1 … 899 → `IntN(900-len+1)`, ≥ 900, more than fits) and target; both `intToUint16` conversions stay in range -/
+theorem no_panic_relay_dialstream_split (target : Addr) (ht : target.nameFits = true) (payloadLen draw : Nat) :
+    dialStreamSplit target payloadLen draw ≠ .panic := np_dialStreamSplit target ht payloadLen draw
+
 /-! ### everything computed afterwards: routing on the wire-derived address (finding F3) -/
 
 /-- FULL STATEMENT: for every router configuration (every criterion kind, every port representation,
@@ -245,7 +309,7 @@ theorem shape_ShadowPacketServerUnpack : Gen.C06.ShadowPacketServerUnpack_shape 
     ["if packetLen < p.nonAEADHeaderLen+p.aead.Overhead() => return", "b[packetStart : packetStart+UDPSeparateHeaderLength]", "separateHeader[4:16]", "b[messageHeaderStart : packetStart+packetLen]", "call Uint64", "separateHeader[8:]", "ciphertext[:0]", "call .MustAdd"] := rfl
 
 theorem shape_ShadowPacketClientUnpack : Gen.C06.ShadowPacketClientUnpack_shape =
-    ["if packetLen < UDPSeparateHeaderLength+16 => return", "b[packetStart:messageHeaderStart]", "separateHeader[4:16]", "b[messageHeaderStart : packetStart+packetLen]", "call Uint64", "call Uint64", "separateHeader[8:]", "separateHeader[:8]", "ciphertext[:0]", "call .MustAdd"] := rfl
+    ["if packetLen < UDPSeparateHeaderLength+16 => return", "b[packetStart:messageHeaderStart]", "separateHeader[4:16]", "b[messageHeaderStart : packetStart+packetLen]", "call Uint64", "call Uint64", "separateHeader[8:]", "case time.Since(p.oldServerSessionLastSeenTime) < time.Minute", "separateHeader[:8]", "ciphertext[:0]", "call .MustAdd"] := rfl
 
 theorem shape_DirectServerPack : Gen.C06.DirectServerPack_shape =
     ["if packetLen > maxPacketLen", "call .IPPort"] := rfl
@@ -272,7 +336,7 @@ theorem shape_panicOnZeroPort : Gen.C06.panicOnZeroPort_shape =
     ["panic"] := rfl
 
 theorem shape_PortRangeSetContains : Gen.C06.PortRangeSetContains_shape =
-    ["s.ranges[h]", "s.ranges[h]"] := rfl
+    ["case port > s.ranges[h].To", "s.ranges[h]", "case port < s.ranges[h].From", "s.ranges[h]"] := rfl
 
 theorem shape_SourcePortMeet : Gen.C06.SourcePortMeet_shape =
     [] := rfl
@@ -323,7 +387,7 @@ theorem shape_replyWithStatus : Gen.C06.replyWithStatus_shape =
 is the one that was read and fuzzed (a change re-opens the obligation; no no-panic theorem is claimed for them) -/
 
 theorem shape_hostHeaderToAddr : Gen.C06.hostHeaderToAddr_shape =
-    ["host[0]", "host[len(host)-1]", "host[1 : len(host)-1]"] := rfl
+    ["case len(host) == 0", "case host[0] == '[' && host[len(host)-1] == ']'", "host[0]", "host[len(host)-1]", "host[1 : len(host)-1]"] := rfl
 
 theorem shape_serverHandleBasicAuth : Gen.C06.serverHandleBasicAuth_shape =
     ["header[\"Proxy-Authorization\"]", "if len(creds) > len(prefix) && (creds[0] == 'B' || creds[0] == 'b') && (creds[1] == 'a' || creds[1] == 'A') && (creds[2] == 's' || creds[2] == 'S') && (creds[3] == 'i' || creds[3] == 'I') && (creds[4] == 'c' || creds[4] == 'C') && creds[5] == ' ' => return", "creds[0]", "creds[0]", "creds[1]", "creds[1]", "creds[2]", "creds[2]", "creds[3]", "creds[3]", "creds[4]", "creds[4]", "creds[5]", "creds[len(prefix):]"] := rfl
@@ -335,7 +399,7 @@ theorem audited_shape_StreamServerHandleStream : Gen.C06.StreamServerHandleStrea
     ["if bufferLen <= cap(writeBuf)", "writeBuf[:bufferLen]", "b[:reservedStart]", "if n > 0 && s.unsafeFallbackAddr.IsValid() => return", "readBuf[:n]", "b[:urspLen]", "b[urspLen:identityHeaderStart]", "b[fixedLengthHeaderStart:reservedStart]", "b[reservedStart:]", "b[identityHeaderStart:fixedLengthHeaderStart]", "conv [IdentityHeaderLength]byte", "if bufferLen <= cap(writeBuf)", "writeBuf[:bufferLen]"] := rfl
 
 theorem audited_shape_ShadowStreamClientInitRead : Gen.C06.ShadowStreamClientInitRead_shape =
-    ["b[:bufferLen]", "c.ShadowStreamConn.getReadBuf()[:bufferLen]", "hb[:urspLen]", "hb[urspLen:fixedLengthHeaderStart]", "hb[fixedLengthHeaderStart:]", "c.requestSalt[:c.requestSaltLen]"] := rfl
+    ["case bufferLen <= len(b)", "b[:bufferLen]", "case bufferLen <= streamReadMinBufferSize", "c.ShadowStreamConn.getReadBuf()[:bufferLen]", "hb[:urspLen]", "hb[urspLen:fixedLengthHeaderStart]", "hb[fixedLengthHeaderStart:]", "c.requestSalt[:c.requestSaltLen]"] := rfl
 
 theorem audited_shape_readOnceExpectFull : Gen.C06.readOnceExpectFull_shape =
     ["if err == io.EOF && 0 < n && n < len(b) => return", "if n < len(b) => return"] := rfl
@@ -363,6 +427,59 @@ theorem audited_shape_dnsSendQueries : Gen.C06.dnsSendQueries_shape =
 
 theorem audited_shape_httpClientConnect : Gen.C06.httpClientConnect_shape =
     ["if resp.StatusCode < 200 || resp.StatusCode >= 300 => return", "if br.Buffered() > 0 => return"] := rfl
+
+/-! ### Gen side conditions for the relay re-pack step (round 2) -/
+
+theorem shape_ShadowPacketClientPack : Gen.C06.ShadowPacketClientPack_shape =
+    ["case maxPaddingLen < 0", "case maxPaddingLen > 0 && p.shouldPad(targetAddr)", "call mrand.IntN(maxPaddingLen)", "b[messageHeaderStart:payloadStart]", "b[packetStart:identityHeadersStart]", "separateHeader[4:16]", "b[messageHeaderStart : payloadStart+payloadLen]", "b[start : start+IdentityHeaderLength]", "p.eihPSKHashes[i][:]", "p.eihPSKHashes[i]", "p.eihCiphers[i]", "plaintext[:0]"] := rfl
+
+theorem shape_ShadowPacketServerPack : Gen.C06.ShadowPacketServerPack_shape =
+    ["case maxPaddingLen < 0", "case maxPaddingLen > 0 && p.shouldPad(conn.AddrFromIPPort(sourceAddrPort))", "call mrand.IntN(maxPaddingLen)", "b[messageHeaderStart:payloadStart]", "b[packetStart:messageHeaderStart]", "separateHeader[4:16]", "b[messageHeaderStart : payloadStart+payloadLen]", "plaintext[:0]"] := rfl
+
+theorem shape_PutUDPClientMessageHeader : Gen.C06.PutUDPClientMessageHeader_shape =
+    ["b[0]", "call PutUint64", "b[1:]", "call PutUint16", "b[1+8:]", "b[1+8+2+paddingLen:]"] := rfl
+
+theorem shape_PutUDPServerMessageHeader : Gen.C06.PutUDPServerMessageHeader_shape =
+    ["b[0]", "call PutUint64", "b[1:]", "call PutUint64", "b[1+8:]", "call PutUint16", "b[1+8+8:]", "b[1+8+8+2+paddingLen:]"] := rfl
+
+theorem shape_intToUint16 : Gen.C06.intToUint16_shape =
+    ["panic"] := rfl
+
+theorem shape_StreamClientDialStream : Gen.C06.StreamClientDialStream_shape =
+    ["case payloadLen > roomForPayload", "payload[roomForPayload:]", "payload[:roomForPayload]", "case payloadLen >= MaxPaddingLength", "case payloadLen > 0", "call mrand.IntN(MaxPaddingLength - payloadLen + 1)", "call mrand.IntN(MaxPaddingLength)", "if bufferLen <= cap(writeBuf)", "writeBuf[:bufferLen]", "b[:urspLen]", "b[urspLen:identityHeadersStart]", "b[identityHeadersStart:fixedLengthHeaderStart]", "b[fixedLengthHeaderStart:fixedLengthHeaderEnd]", "b[variableLengthHeaderStart:variableLengthHeaderEnd]", "identityHeaders[i*IdentityHeaderLength : (i+1)*IdentityHeaderLength]", "eihCiphers[i]", "eihPSKHashes[i][:]", "eihPSKHashes[i]", "if len(excessPayload) > 0"] := rfl
+
+theorem shape_PutTCPRequestVariableLengthHeader : Gen.C06.PutTCPRequestVariableLengthHeader_shape =
+    ["call PutUint16", "b[n:]", "b[n:]"] := rfl
+
+theorem shape_DirectClientPack : Gen.C06.DirectClientPack_shape =
+    ["call .IPPort", "if packetLen > maxPacketLen"] := rfl
+
+theorem shape_NoneClientPack : Gen.C06.NoneClientPack_shape =
+    ["if packetLen > p.maxPacketSize", "b[packetStart:]"] := rfl
+
+theorem shape_NoneServerPack : Gen.C06.NoneServerPack_shape =
+    ["if packetLen > maxPacketLen", "b[packetStart:]"] := rfl
+
+theorem shape_Socks5ClientPack : Gen.C06.Socks5ClientPack_shape =
+    ["if packetLen > p.maxPacketSize", "b[packetStart:]", "b[packetStart+3:]"] := rfl
+
+theorem shape_Socks5ServerPack : Gen.C06.Socks5ServerPack_shape =
+    ["if packetLen > maxPacketLen", "b[packetStart:]", "b[packetStart+3:]"] := rfl
+
+theorem shape_WriteAddrFromConnAddr : Gen.C06.WriteAddrFromConnAddr_shape =
+    ["call .IPPort", "call .Domain", "b[0]", "b[1]", "b[2:]", "call PutUint16", "b[1+1+len(domain):]"] := rfl
+
+theorem shape_WriteAddrFromAddrPort : Gen.C06.WriteAddrFromAddrPort_shape =
+    ["b[0]", "conv (*[4]byte)", "b[1:]", "b[0]", "conv (*[16]byte)", "b[1:]", "call PutUint16", "b[n-2:]"] := rfl
+
+theorem shape_LengthOfAddrFromConnAddr : Gen.C06.LengthOfAddrFromConnAddr_shape =
+    ["call .IPPort", "call .Domain", "if len(domain) > 255 => return", "panic"] := rfl
+
+theorem shape_UDPRelayHeadroom : Gen.C06.UDPRelayHeadroom_shape =
+    [] := rfl
+
+theorem shape_MaxPacketSizeForAddr : Gen.C06.MaxPacketSizeForAddr_shape =
+    ["if mtu > 65575 => return"] := rfl
 
 end SSV.C06
 
@@ -394,6 +511,17 @@ end SSV.C06
 #print axioms SSV.C06.streamRead_u16_fits
 #print axioms SSV.C06.no_panic_hostHeaderToAddr
 #print axioms SSV.C06.no_panic_basicAuthToken
+#print axioms SSV.C06.no_panic_relay_repack_ss2022_client
+#print axioms SSV.C06.no_panic_relay_repack_ss2022_server
+#print axioms SSV.C06.relay_repack_unguarded_exact_fit_panics
+#print axioms SSV.C06.no_panic_relay_repack_none_client
+#print axioms SSV.C06.no_panic_relay_repack_socks5_client
+#print axioms SSV.C06.no_panic_relay_repack_none_server
+#print axioms SSV.C06.no_panic_relay_repack_socks5_server
+#print axioms SSV.C06.no_panic_relay_repack_direct_client
+#print axioms SSV.C06.parsed_address_fits_packers
+#print axioms SSV.C06.parsed_address_fits_packers_dc
+#print axioms SSV.C06.no_panic_relay_dialstream_split
 #print axioms SSV.C06.no_panic_router_match
 #print axioms SSV.C06.no_panic_wire_to_route
 #print axioms SSV.C06.router_match_unguarded_panics
@@ -456,3 +584,20 @@ end SSV.C06
 #print axioms SSV.C06.audited_shape_dnsDoTCP
 #print axioms SSV.C06.audited_shape_dnsSendQueries
 #print axioms SSV.C06.audited_shape_httpClientConnect
+#print axioms SSV.C06.shape_ShadowPacketClientPack
+#print axioms SSV.C06.shape_ShadowPacketServerPack
+#print axioms SSV.C06.shape_PutUDPClientMessageHeader
+#print axioms SSV.C06.shape_PutUDPServerMessageHeader
+#print axioms SSV.C06.shape_intToUint16
+#print axioms SSV.C06.shape_StreamClientDialStream
+#print axioms SSV.C06.shape_PutTCPRequestVariableLengthHeader
+#print axioms SSV.C06.shape_DirectClientPack
+#print axioms SSV.C06.shape_NoneClientPack
+#print axioms SSV.C06.shape_NoneServerPack
+#print axioms SSV.C06.shape_Socks5ClientPack
+#print axioms SSV.C06.shape_Socks5ServerPack
+#print axioms SSV.C06.shape_WriteAddrFromConnAddr
+#print axioms SSV.C06.shape_WriteAddrFromAddrPort
+#print axioms SSV.C06.shape_LengthOfAddrFromConnAddr
+#print axioms SSV.C06.shape_UDPRelayHeadroom
+#print axioms SSV.C06.shape_MaxPacketSizeForAddr
